@@ -66,7 +66,7 @@ func genLedgerFacts() (string, error) {
 		"ErrInvalidNumCommittees", "ErrInvalidChainId", "ErrRejectProposal", "ErrNonSubsidizedCommittee",
 		"ErrInvalidQCCommitteeHeight", "ErrInvalidQCRootChainHeight", "ErrInvalidDoubleSigner",
 		"ErrInvalidDoubleSignHeights", "ErrInvalidPercentAllocation", "ErrInvalidParam", "ErrUnknownParam",
-		"ErrUnknownParamSpace", "ErrInvalidArgument", "ErrInvalidBlockRange", "ErrInvalidAddress", "InvalidSellOrder"} {
+		"ErrUnknownParamSpace", "ErrInvalidArgument", "ErrInvalidBlockRange", "ErrInvalidAddress", "InvalidSellOrder", "ErrIncompatibleVesting", "ErrInvalidVesting"} {
 		id, e := ctor(n)
 		if e != nil {
 			return "", e
@@ -111,6 +111,10 @@ func genLedgerFacts() (string, error) {
 		{"fsm/account.go", "StateMachine", "SetAccount"}, {"fsm/account.go", "StateMachine", "SetAccounts"},
 		{"fsm/account.go", "StateMachine", "AccountDeductFees"}, {"fsm/account.go", "StateMachine", "AccountAdd"},
 		{"fsm/account.go", "StateMachine", "AccountSub"}, {"fsm/account.go", "StateMachine", "maybeFaucetTopUpForSendTx"},
+		{"fsm/account.go", "StateMachine", "AccountVestedAmount"}, {"fsm/account.go", "StateMachine", "AccountLockedAmount"},
+		{"fsm/account.go", "StateMachine", "AccountSpendableAmount"}, {"fsm/account.go", "StateMachine", "clearAccountVestingIfFullyVested"},
+		{"fsm/account.go", "StateMachine", "ValidateAccountAddWithVesting"}, {"fsm/account.go", "StateMachine", "AccountAddWithVesting"},
+		{"fsm/message_helpers.go", "MessageSend", "Check"},
 		{"fsm/account.go", "StateMachine", "SetPool"}, {"fsm/account.go", "StateMachine", "SetPools"},
 		{"fsm/account.go", "StateMachine", "MintToPool"}, {"fsm/account.go", "StateMachine", "MintToAccount"},
 		{"fsm/account.go", "StateMachine", "PoolAdd"}, {"fsm/account.go", "StateMachine", "PoolSub"},
